@@ -85,7 +85,7 @@ def run(ctx, fx):
     c = b.calls_to('qvfix::take')[0]
     ctx.control('P7.via_field', bool(flow_sinks(F, c, ['qvfix::retransmit'], via_field='frames')), True)
     # P16 guarded read (bounds asserts)
-    for name, expect in (('read_ok', False), ('read_bad', True)):
+    for name, expect in (('read_ok', False), ('read_bad', True), ('read_named_ok', False), ('read_named_bad', True)):
         b = fn(name)
         asserts = [i for i, blk in enumerate(b.blocks) if blk['t'][0] == 'assert' and blk['t'][3] == 'bounds']
         fired = True
